@@ -615,24 +615,29 @@ def scan_loop(src, function, bound=("n_frames",), defines=(), perframe_extra=())
 
 
 def file_scope_vars(code):
-    """Names of mutable variables defined at file scope."""
-    depth, cur, names = 0, "", []
+    """Names of mutable variables defined at file scope (namespace blocks are transparent)."""
+    stack, cur, names = [], "", []
     for ch in code:
         if ch == "{":
-            depth += 1
-            cur += " "
+            head = " ".join(cur.split())
+            if re.match(r"^(?:inline\s+)?namespace\b[^;{}()=]*$", head) or re.match(r'^extern\s+"C"\s*$', head):
+                stack.append("ns")
+            else:
+                stack.append("blk")
+            cur = " " if stack[-1] == "blk" else ""
             continue
         if ch == "}":
-            depth -= 1
+            if stack:
+                stack.pop()
             cur = ""
             continue
-        if depth == 0:
+        if "blk" not in stack:
             if ch == ";":
                 t = " ".join(cur.split())
                 cur = ""
-                if not t or "(" in t.split("=")[0] or re.match(r"^(typedef|using|extern|struct|class|namespace|template|enum)\b", t):
+                if not t or "(" in t.split("=")[0] or re.match(r"^(typedef|using|extern|struct|class|namespace|template|enum|friend)\b", t):
                     continue
-                if re.search(r"\bconst\b", t.split("=")[0]):
+                if re.search(r"\bconst\b", t.split("=")[0]) and "*" not in t.split("=")[0]:
                     continue
                 d = parse_decl(t)
                 if d:
@@ -640,6 +645,36 @@ def file_scope_vars(code):
             else:
                 cur += ch
     return names
+
+
+def static_locals(code):
+    """Names of non-const static local variables (inside any function body)."""
+    names = []
+    depth = 0
+    cur = ""
+    for ch in code:
+        if ch == "{":
+            depth += 1
+            cur = ""
+        elif ch == "}":
+            depth -= 1
+            cur = ""
+        elif ch == ";":
+            t = " ".join(cur.split())
+            cur = ""
+            if depth > 0 and re.match(r"^static\b", t) and "(" not in t.split("=")[0] and not re.match(r"^static\s+const\b(?!.*\*)", t):
+                d = parse_decl(t)
+                if d:
+                    names += [x[0] for x in d]
+        else:
+            cur += ch
+    return names
+
+
+def file_static_state(src, defines=()):
+    """Everything in a kernel source file that outlives a call: mutable file-scope variables and static locals."""
+    code = preprocess(strip_comments(src), defines)
+    return sorted(set(file_scope_vars(code)) | set(static_locals(code)))
 
 
 def scan_percall(src, function, defines=()):
